@@ -153,10 +153,24 @@ fn sim_echo(v: &str, _: Kwargs, _: &State) -> String {
     v.to_string()
 }
 
-fn sim_fn(kwargs: Kwargs, _: &State) -> TeraResult<Value> {
+/// What a callback can see through `&State`: two names from the global context (`g_only` is in
+/// every generated global context, `zz_g2` only after the global-context-change pass) and one
+/// that is never defined. Part of `sim_fn`'s result, so that anything a render leaves behind
+/// where `State::get` looks shows up as a difference between renders.
+fn state_probe(state: &State) -> String {
+    let look = |n: &str| match state.get::<Value>(n) {
+        Ok(Some(v)) => format!("{}", v),
+        Ok(None) => "-".to_string(),
+        Err(_) => "!".to_string(),
+    };
+    format!("{}/{}/{}", look("g_only"), look("zz_g2"), look("zz_never_defined"))
+}
+
+fn sim_fn(kwargs: Kwargs, state: &State) -> TeraResult<Value> {
     cb();
     let v = kwargs.get::<Value>("v")?;
-    Ok(v.unwrap_or_else(|| Value::from("sim")))
+    let base = v.map(|v| format!("{}", v)).unwrap_or_else(|| "sim".to_string());
+    Ok(Value::from(format!("{}~{}", base, state_probe(state))))
 }
 
 fn sim_test(v: &Value, _: Kwargs, _: &State) -> bool {
@@ -283,6 +297,10 @@ pub struct Probe {
     pub names: Vec<String>,
     pub blocks: Vec<String>,
     pub comps: Vec<CompProbe>,
+    /// one-off sources (`render_str`), the same strings at every observation: whatever the engine
+    /// may remember about a one-off it has rendered before must not outlive a registry change
+    #[serde(default)]
+    pub oneoffs: Vec<String>,
 }
 
 pub type Obs = BTreeMap<String, String>;
@@ -356,6 +374,11 @@ pub fn observe(t: &Tera, ctxs: &[Context], probe: &Probe) -> Obs {
                 format!("comp:{}:{}", cp.name, esc),
                 canon(&t.render_component(&cp.name, &ctx, cp.body.as_deref(), esc)),
             );
+        }
+    }
+    for (i, src) in probe.oneoffs.iter().enumerate() {
+        if let Some(c) = ctxs.first() {
+            o.insert(format!("oneoff:{}", i), canon(&t.render_str(src, c, true)));
         }
     }
     o
@@ -471,6 +494,14 @@ pub fn observe_guarded(t: &Tera, ctxs: &[Context], probe: &Probe, budget: u64, d
             for esc in [true, false] {
                 let v = guarded(format!("render_component({}, autoescape={})", cp.name, esc), registered, &mut || t.render_component(&cp.name, &ctx, cp.body.as_deref(), esc), &mut problems);
                 o.insert(format!("comp:{}:{}", cp.name, esc), v);
+            }
+        }
+    }
+    if do_render {
+        if let Some(c) = ctxs.first() {
+            for (i, src) in probe.oneoffs.iter().enumerate() {
+                let v = guarded(format!("render_str(one-off {})", i), false, &mut || t.render_str(src, c, true), &mut problems);
+                o.insert(format!("oneoff:{}", i), v);
             }
         }
     }
